@@ -239,7 +239,7 @@ def run(ctx):
     E.r_discovered_append(prog, rep)
     E.r_discovered_demanded(prog, rep)
     # a recorded (discovered) dependency is honoured by the same scan as a declared one
-    for rule_fn in (E.r_scan_guards, E.r_scan_waits, E.r_epoch_cmp, E.r_epoch_persist, E.r_parallel_vectors, E.r_singleuse_bits):
+    for rule_fn in (E.r_scan_guards, E.r_scan_waits, E.r_epoch_cmp, E.r_epoch_persist, E.r_parallel_vectors, E.r_singleuse_bits, E.r_deps_reset):
         rule_fn(prog, rep)
 
 
